@@ -63,7 +63,7 @@
 		if iri < 0 {
 			panic("unexpected parser state: iri start not set")
 		}
-		switch u, err := url.Parse(string(data[iri:p])); {
+		switch u, err := url.Parse(unEscape(data[iri:p])); {
 		case err != nil:
 			return s, err
 		case !u.IsAbs():
